@@ -22,7 +22,7 @@ PROPS = {
     "C01": {
         "pf": True,
         "n": {"quick": 220, "thorough": 12000},
-        "cone": ["Bytes", "BytesLemmas", "Regex", "Generated", "Channel", "Session", "SessionLemmas", "Replay", "DecideLang", "GeneratedSkel", "WindowSrc", "SendInputSrc", "InteractiveSrcDefs", "PlatformTypes", "DecideLemmas", "ReadUntilSrc", "ChanReadSrc"],
+        "cone": ["Bytes", "BytesLemmas", "Regex", "Generated", "Channel", "Session", "SessionLemmas", "Replay", "DecideLang", "GeneratedSkel", "WindowSrc", "SendInputSrc", "InteractiveSrcDefs", "PlatformTypes", "DecideLemmas", "ReadUntilSrc", "ChanReadSrc", "ProcessOutSrc"],
         "rx": True,
         "kernel_sample": {"quick": 6, "thorough": 20}, "kernel_maxlen": 2500,
         "rule": "generic.Driver SendCommands / SendCommand over the simulated transport and a CLI echo device: prompts drawn from the default "
